@@ -535,3 +535,42 @@ def dict_loops(block, d=None, top_only: bool = False):
             elif d is None and contains(lp[3], ("s", it, var)):
                 out.append((lp, var, ("s", it, var), it))
     return out
+
+
+def const_tables(ctx: Ctx, fi: FuncInfo) -> dict:
+    """{('g', NAME): display} for the module-level names of fi's module that are bound once, to a dict / tuple / list / set
+    display, and that nothing in the repository stores into or calls a mutating method on: constant tables, which a rule
+    that evaluates a dispatch may read through"""
+    from framelint.canon import Canon, CanonOptions
+    mod = fi.module
+    binds: dict = {}
+    for st in mod.tree.body:
+        tg = None
+        if isinstance(st, ast.Assign) and len(st.targets) == 1 and isinstance(st.targets[0], ast.Name):
+            tg = st.targets[0].id
+        elif isinstance(st, ast.AnnAssign) and st.value is not None and isinstance(st.target, ast.Name):
+            tg = st.target.id
+        if tg is not None:
+            binds.setdefault(tg, []).append(st.value)
+    names = {n for n, v in binds.items() if len(v) == 1 and isinstance(v[0], (ast.Dict, ast.Tuple, ast.List, ast.Set))}
+    if not names:
+        return {}
+    MUT = {"append", "extend", "insert", "pop", "remove", "clear", "update", "setdefault", "add", "discard", "sort", "reverse", "popitem"}
+    for m in ctx.model.modules.values():
+        for n in ast.walk(m.tree):
+            if isinstance(n, (ast.Subscript, ast.Attribute)) and isinstance(n.ctx, (ast.Store, ast.Del)) and isinstance(n.value, ast.Name) and n.value.id in names:
+                names.discard(n.value.id)
+            elif isinstance(n, ast.Call) and isinstance(n.func, ast.Attribute) and n.func.attr in MUT and isinstance(n.func.value, ast.Name) and n.func.value.id in names:
+                names.discard(n.func.value.id)
+            elif isinstance(n, ast.Global):
+                names.difference_update(n.names)
+            elif isinstance(n, ast.AugAssign) and isinstance(n.target, ast.Name) and n.target.id in names:
+                names.discard(n.target.id)
+    cn = Canon(fi, ctx.model, CanonOptions())
+    out = {}
+    for n in sorted(names):
+        try:
+            out[("g", n)] = cn.expr(binds[n][0])
+        except Exception:
+            pass
+    return out
